@@ -81,3 +81,18 @@ Definition c07_case (T : nat) (nodes names : list string) (steps : list nat) (pa
   [ map_close (ap_map m) mp;
     steps_nodes_eqb (nodal_map nodes [] steps (ap_map m)) rec;
     wf_lpb P; all_le (lp_l P) (lp_u P); wf_mapb (nvars P) T (lp_c P) names mp; unmapped_ok P mp; nodup_sn rec ].
+
+(* ---------- C05 ---------- *)
+From EAO Require Import StorageProofs.
+(* reported fill level (Storage.fill_level, full grid) against the model's physical level at the asset's steps *)
+Definition c05_level_case (rg : option rgrid) (p : storage_p) (x : vec) (reported : vec) : bool :=
+  match rg with
+  | None => true
+  | Some rg =>
+      match rg_minor rg with
+      | Some _ => true
+      | None =>
+          let n := rg_T rg in
+          vclose tol (map (fun t => level p n (rg_dt rg) x t) (seq 0 n)) (pick 0 reported (rg_I rg))
+      end
+  end.
